@@ -22,11 +22,14 @@ class Unknown(Exception):
 
 
 PASS_METHODS = {"contiguous", "clone", "long", "detach", "to", "int", "unsqueeze", "expand", "view", "squeeze",
-                "expand_as", "reshape"}
+                "expand_as", "reshape", "flatten"}
 
 
 class Extractor:
-    def __init__(self, rd: ReachingDefs, leaf_of_def: Callable, leaf_of_expr: Callable = None, max_depth: int = 25):
+    def __init__(self, rd: ReachingDefs, leaf_of_def: Callable, leaf_of_expr: Callable = None, max_depth: int = 25,
+                 term_hook: Callable = None, cond_hook: Callable = None):
+        self.term_hook = term_hook  # (expr, extractor, depth) -> term or None
+        self.cond_hook = cond_hook
         self.rd = rd
         self.leaf_of_def = leaf_of_def  # (Def) -> leaf name or None
         self.leaf_of_expr = leaf_of_expr or (lambda e: None)
@@ -35,6 +38,10 @@ class Extractor:
     def cond(self, e: ast.AST, depth: int = 0):
         if depth > self.max_depth:
             raise Unknown("depth")
+        if self.cond_hook is not None:
+            h = self.cond_hook(e, self, depth)
+            if h is not None:
+                return h
         if isinstance(e, ast.Call) and isinstance(e.func, ast.Attribute) and e.func.attr in PASS_METHODS:
             return self.cond(e.func.value, depth + 1)
         if isinstance(e, ast.BinOp) and isinstance(e.op, (ast.BitAnd, ast.BitOr)):
@@ -45,6 +52,9 @@ class Extractor:
             ds = list(self.rd.defs_of(e))
             if len(ds) == 1 and ds[0].kind == "assign":
                 return self.cond(ds[0].value, depth + 1)
+            if len(ds) == 1 and ds[0].kind == "unpack" and isinstance(ds[0].value, ast.Tuple) and ds[0].slot \
+                    and len(ds[0].slot) == 1 and ds[0].slot[0] < len(ds[0].value.elts):
+                return self.cond(ds[0].value.elts[ds[0].slot[0]], depth + 1)
             raise Unknown(f"condition `{u(e)}` has {len(ds)} definitions")
         if isinstance(e, ast.Compare) and len(e.ops) == 1:
             op = {ast.Eq: "==", ast.NotEq: "!=", ast.Lt: "<", ast.LtE: "<=", ast.Gt: ">", ast.GtE: ">="}.get(type(e.ops[0]))
@@ -58,6 +68,10 @@ class Extractor:
     def term(self, e: ast.AST, depth: int = 0):
         if depth > self.max_depth:
             raise Unknown("depth")
+        if self.term_hook is not None:
+            h = self.term_hook(e, self, depth)
+            if h is not None:
+                return h
         lf = self.leaf_of_expr(e)
         if lf is not None:
             return ("leaf", lf)
@@ -70,6 +84,9 @@ class Extractor:
                 return ("leaf", leaves.pop())
             if len(ds) == 1 and ds[0].kind == "assign" and ds[0].value is not None:
                 return self.term(ds[0].value, depth + 1)
+            if len(ds) == 1 and ds[0].kind == "unpack" and isinstance(ds[0].value, ast.Tuple) and ds[0].slot \
+                    and len(ds[0].slot) == 1 and ds[0].slot[0] < len(ds[0].value.elts):
+                return self.term(ds[0].value.elts[ds[0].slot[0]], depth + 1)
             if len(ds) == 1 and ds[0].kind == "aug":
                 d = ds[0]
                 prev = list(getattr(d, "prev", ()))
@@ -121,6 +138,14 @@ class Extractor:
                 if m in ("max", "maximum") and len(e.args) == 1:
                     return ("max", self.term(recv, depth + 1), self.term(e.args[0], depth + 1))
         raise Unknown(f"`{u(e)[:60]}` is outside the min/max-linear fragment")
+
+
+def rename_leaves(t, mapping: Dict[str, str]):
+    if isinstance(t, tuple):
+        if t[0] == "leaf":
+            return ("leaf", mapping.get(t[1], t[1]))
+        return tuple(rename_leaves(x, mapping) if isinstance(x, tuple) else x for x in t)
+    return t
 
 
 def ev(t, env: Dict[str, int]) -> int:
